@@ -175,3 +175,24 @@ func TestDevC15Graph(t *testing.T) {
 		}
 	}
 }
+
+func TestDevGen(t *testing.T) {
+	if os.Getenv("GEN") == "" {
+		t.Skip()
+	}
+	bad := 0
+	for seed := uint64(1); seed <= 300; seed++ {
+		for _, kind := range []string{"leak", "endless"} {
+			src := genProgram(seed, kind, 5)
+			_, err := MustCompile(Single(src))
+			if err != nil {
+				bad++
+				if bad <= 4 {
+					t.Logf("seed %d kind %s: %v\n%s", seed, kind, err, src)
+				}
+			}
+		}
+	}
+	t.Logf("%d of 600 generated programs rejected", bad)
+	t.Log(genProgram(7, "leak", 5))
+}
